@@ -606,6 +606,21 @@ fn build_api(ovs: &BTreeSet<Option<u64>>) -> ApiDescription<Ctx> {
     api
 }
 
+/// one request on a fresh connection; 0 = no response
+fn send_once(addr: SocketAddr, req: &[u8]) -> u16 {
+    match Conn::open(addr) {
+        Ok(mut c) => {
+            c.set_timeout(Duration::from_secs(60));
+            let _ = c.send(req); // the server may answer before it has read everything
+            match c.read_response(false) {
+                Ok(r) => r.status,
+                Err(_) => 0,
+            }
+        }
+        Err(_) => 0,
+    }
+}
+
 struct Server {
     srv: dropshot::HttpServer<Ctx>,
     addr: SocketAddr,
@@ -620,7 +635,7 @@ impl Server {
         self.next_id
     }
     fn healthy(&self) -> bool {
-        matches!(roundtrip(self.addr, &request("GET", "/ping", &[], None), false), Ok(r) if r.status == 200)
+        send_once(self.addr, &request("GET", "/ping", &[], None)) == 200
     }
     /// run a batch of direct jobs inside a handler of this server
     fn direct(&self, jobs: Vec<DirectJob>) -> Vec<(HObs, usize)> {
@@ -816,6 +831,7 @@ fn run_case(w: &mut World, case: &Case, group: &'static str, out: &mut dyn Write
                 format!("/{}/{}", x.name(), ov_path(*ov))
             };
             let mut res = vec![];
+            let mut retried = false;
             for f in runs {
                 let id = s.fresh();
                 let ids = id.to_string();
@@ -824,16 +840,14 @@ fn run_case(w: &mut World, case: &Case, group: &'static str, out: &mut dyn Write
                     Framing::Cl => request("PUT", &path, &hdrs, Some(&bytes)),
                     Framing::Chunked { sizes, .. } => request_chunked("PUT", &path, &hdrs, &bytes, sizes),
                 };
-                let st = match Conn::open(s.addr) {
-                    Ok(mut c) => {
-                        let _ = c.send(&req); // the server may answer before it has read everything
-                        match c.read_response(false) {
-                            Ok(r) => r.status,
-                            Err(_) => 0,
-                        }
-                    }
-                    Err(_) => 0,
-                };
+                let mut st = send_once(s.addr, &req);
+                if st == 0 {
+                    // no response at all (reset / timeout on a loaded machine):
+                    // one more attempt, reported in the tags
+                    retried = true;
+                    s.ctx().log.lock().unwrap().remove(&id);
+                    st = send_once(s.addr, &req);
+                }
                 let h = s.ctx().log.lock().unwrap().remove(&id).unwrap_or(HObs::Refused(st));
                 let healthy = s.healthy();
                 res.push((st, h, healthy));
@@ -861,6 +875,9 @@ fn run_case(w: &mut World, case: &Case, group: &'static str, out: &mut dyn Write
                 });
             }
             tags.extend(kinds);
+            if retried {
+                tags.push("retried-after-no-response".into());
+            }
             if res.iter().any(|(st, _, _)| *st / 100 == 4) {
                 tags.push("obs:4xx".into());
             }
@@ -1065,23 +1082,36 @@ fn gen_cases(opts: &Opts) -> Vec<(&'static str, Case)> {
     let n_direct = if opts.thorough { 2400 } else { 500 };
     let direct_ovs: Vec<Option<u64>> = vec![
         None, Some(0), Some(1), Some(7), Some(61), Some(100), Some(1024), Some(70000), Some(u64::MAX),
-    ];
+    ]; // the first 7 are small
     for i in 0..n_direct {
         let x = ALLX[i % 5];
         let def = *rng.pick(&[0u64, 1, 7, 1024, 3, 8]);
-        let ov = *rng.pick(&direct_ovs);
-        let cap = eff(ov, def);
-        let len = if cap > 200000 {
-            *rng.pick(&[0usize, 1, 5, 61, 100, 5000])
-        } else {
-            let c = cap as usize;
-            match rng.below(10) {
-                0 => 2 * c,
-                1 => 65537,
-                2 => rng.range(0, c + 20),
-                _ => (c + rng.range(0, 6)).saturating_sub(3),
+        // bodies of 64 KiB and more are expensive to judge: a fixed share
+        let heavy = i % (if opts.thorough { 8 } else { 25 }) == 7;
+        let (ov, len) = if heavy {
+            if rng.chance(1, 2) {
+                (Some(70000u64), *rng.pick(&[65537usize, 69999, 70000, 70001, 140000]))
+            } else {
+                (*rng.pick(&direct_ovs[..7]), 65537)
             }
+        } else {
+            let ov = *rng.pick(&direct_ovs);
+            let cap = eff(ov, def);
+            let len = if cap > 200000 {
+                *rng.pick(&[0usize, 1, 5, 61, 100, 5000])
+            } else if cap > 4096 {
+                rng.range(0, 300)
+            } else {
+                let c = cap as usize;
+                match rng.below(10) {
+                    0 => 2 * c,
+                    1 => rng.range(0, c + 20),
+                    _ => (c + rng.range(0, 6)).saturating_sub(3),
+                }
+            };
+            (ov, len)
         };
+        let cap = eff(ov, def);
         let pad = if x == X::Json && rng.chance(1, 2) { rng.range(0, 9) } else { 0 };
         let body = body_for(x, len, pad, rng.below(36) as u64, 1 + rng.below(11) as u64);
         let mut runs = vec![];
@@ -1108,10 +1138,9 @@ fn gen_cases(opts: &Opts) -> Vec<(&'static str, Case)> {
         cases.push(("direct-sampled", Case::Direct { x, ov, def, body, runs }));
     }
 
-    // -- live, exhaustive: cap 0..8 (0..5 in the quick tier), every length <=
-    //    cap+3, every composition as chunked transfer coding, plus Content-Length
-    let live_exh_max = if opts.thorough { 8 } else { 5 };
-    for cap in 0u64..=live_exh_max {
+    // -- live, exhaustive: cap 0..8, every length <= cap+3, every composition
+    //    as chunked transfer coding, plus Content-Length
+    for cap in 0u64..=8 {
         let (ov, def) = cfg_for_cap(cap);
         for x in ALLX {
             for len in 0..=(cap as usize + 3) {
@@ -1130,8 +1159,15 @@ fn gen_cases(opts: &Opts) -> Vec<(&'static str, Case)> {
     for def in DEFAULTS {
         for ov in GRID_OVS {
             let cap = eff(ov, def);
+            // bodies of 64 KiB and more: every configuration in the thorough
+            // tier, four of them in the quick tier
+            let heavy_ok = opts.thorough
+                || matches!((def, ov), (0, None) | (1024, None) | (7, Some(100)) | (1, Some(70000)));
             for x in ALLX {
                 for len in grid_lengths(cap) {
+                    if len > 4096 && !heavy_ok {
+                        continue;
+                    }
                     let pad = if x == X::Json && len > 12 { rng.range(0, 5) } else { 0 };
                     let body = body_for(x, len, pad, rng.below(36) as u64, 1 + rng.below(11) as u64);
                     let runs = live_framings(&mut rng, len, cap, opts.thorough);
